@@ -10,7 +10,7 @@
 From PV Require Import Base.Prelude Base.Slice.
 From PV Require Import Model.NDPOptions Model.MiscHopByHop Model.HandlersLoop Model.HandlersDnsMsg.
 From PV Require Import Model.MiscDecoders Model.HandlersProc.
-From PV Require Import Proofs.NDPOptions Proofs.MiscHopByHop Proofs.HandlersDnsMsg Proofs.MiscDecoders Proofs.HandlersProc.
+From PV Require Import Proofs.NDPOptions Proofs.MiscHopByHop Proofs.HandlersDnsMsg Proofs.MiscDecoders Proofs.HandlersProc Proofs.HandlersProgress.
 Open Scope N_scope.
 
 (* ---------------------------------------------------------------- *)
@@ -230,3 +230,51 @@ Example C08_icmp6_without_ip6_header :
                 (of_bytes [135; 0; 0; 0; 0; 0; 0; 0; 254; 128; 0; 0; 0; 0; 0; 0; 0; 0; 0; 0; 0; 0; 0; 1]) = Err EFrameLen.
 Proof. exact icmp6_without_ip6_header. Qed.
 Print Assumptions C08_icmp6_without_ip6_header.
+
+(* ---------------------------------------------------------------- *)
+(* PROGRESS: one iteration of every option / TLV / record walker either ends the walk (result
+   independent of the remaining fuel) or continues strictly further into the input, for EVERY
+   input.  [iteration run adv s]: (exists r, forall f, run (S f) s = r) \/
+   (exists s', adv s s' /\ forall f, run (S f) s = run f s'). *)
+Theorem C08_progress_ndp_options : forall lbl_ok b i, wf b -> (i <= len b)%nat ->
+  iteration (fun f i => parse_opts lbl_ok f b i) (fun i i' => (i + 8 <= i')%nat /\ (i' <= len b)%nat) i.
+Proof. exact progress_parse_opts. Qed.
+Print Assumptions C08_progress_ndp_options.
+
+Theorem C08_progress_dnssl : forall lbl_ok v have i, cap v = len v -> (i <= len v)%nat ->
+  (exists r, forall f, dnssl_loop lbl_ok (S f) v i have = r) \/
+  (exists i' have', (i + 2 <= i')%nat /\ (i' <= len v)%nat /\
+                    forall f, dnssl_loop lbl_ok (S f) v i have = dnssl_loop lbl_ok f v i' have').
+Proof. exact progress_dnssl_loop. Qed.
+Print Assumptions C08_progress_dnssl.
+
+Theorem C08_progress_hopbyhop : forall data pos, wf data -> (pos <= len data)%nat ->
+  iteration (fun f pos => hbh_loop f data pos) (fun pos pos' => (pos < pos')%nat /\ (pos' < len data)%nat) pos.
+Proof. exact progress_hbh_loop. Qed.
+Print Assumptions C08_progress_hopbyhop.
+
+Theorem C08_progress_dhcp_options : forall strict opts, wf opts ->
+  iteration (fun f o => dhcp_walk strict f o) (fun o o' => wf o' /\ (len o' < len o)%nat) opts.
+Proof. exact progress_dhcp_walk. Qed.
+Print Assumptions C08_progress_dhcp_options.
+
+Theorem C08_progress_lldp : forall p pdu pos, wf p ->
+  iteration (fun f pos => lldp_get_pdu f p pdu pos) (fun pos pos' => (pos + 2 <= pos')%nat /\ (pos' <= len p)%nat) pos.
+Proof. exact progress_lldp_get_pdu. Qed.
+Print Assumptions C08_progress_lldp.
+
+(* record loops: a continuing iteration consumes a record or leaves a section (measure decreases) *)
+Theorem C08_progress_mdns : forall m x x', mdns_inv x -> mdns_step m x = Cont x' ->
+  mdns_inv x' /\ (mdns_mu m x' < mdns_mu m x)%nat.
+Proof. exact progress_mdns_step. Qed.
+Print Assumptions C08_progress_mdns.
+
+Theorem C08_progress_nbns : forall m st st', nbns_inv st -> nbns_step m st = Cont st' ->
+  nbns_inv st' /\ (pmu m st' < pmu m st)%nat.
+Proof. exact progress_nbns_step. Qed.
+Print Assumptions C08_progress_nbns.
+
+(* parseTXT (mdnsService.go:53): the TXT strings of an mDNS record, split on '=' *)
+Theorem C08_parse_txt_total : forall txt, parse_txt txt <> Panic /\ parse_txt txt <> Fuel.
+Proof. exact parse_txt_total. Qed.
+Print Assumptions C08_parse_txt_total.
